@@ -36,16 +36,16 @@ class C16(Scenario):
     )
     components = {
         "real": ["watchdog.utils.bricks.SkipRepeatsQueue", "watchdog.observers.api.EventQueue", "watchdog.observers.api.ObservedWatch", "watchdog.events.* dataclasses (equality)", "stdlib queue.Queue"],
-        "simulated": ["threading.Lock/Condition inside queue.Queue", "thread scheduling (byte-code pre-emption in bricks.py, line pre-emption in queue.py)", "clock (queue timeouts)"],
+        "simulated": ["threading.Lock/Condition inside queue.Queue", "thread scheduling (statement and boolean-operand pre-emption points instrumented into bricks.py; queue.py runs under its own mutex whose operations are yield points)", "clock (queue timeouts)"],
     }
     assumptions = ["deque operations are atomic under the GIL", "the queue's own mutex makes _put/_get a total order (recorded by a logging subclass inside the mutex)"]
     budget = {"quick": 20, "thorough": 300, "minimise": 60}
     design_ref = "DESIGN.md 3.3, 4/C16"
-    level_text = ("Seeded search over multi-producer/consumer programs and interleavings (byte-code pre-emption inside SkipRepeatsQueue.put/_put/_get) of the real "
+    level_text = ("Seeded search over multi-producer/consumer programs and interleavings (pre-emption before every statement and between the operands of and/or inside SkipRepeatsQueue.put/_put/_get) of the real "
                   "EventQueue; oracle: consumer output == _put order, every put() that did not reach _put is a justified drop (an equal item was the most recent "
                   "enqueue and still unconsumed at some instant of the call), sequential programs equal the reference model exactly (mandatory drops included).")
     level_note = "trusts GIL atomicity of deque ops and that sim Lock/Condition mirror threading semantics"
-    technique = "deterministic simulation: seeded PCT/random scheduler with byte-code pre-emption over real threads, history oracle + sequential reference model"
+    technique = "deterministic simulation: seeded PCT/random scheduler with statement-level pre-emption (AST instrumentation) over real threads, history oracle + sequential reference model"
 
     # exhaustive part: every put/get sequence of length <= 6 over a two-item alphabet (3^1 + ... + 3^6 = 1092 programs),
     # for each of three alphabets whose two members differ in class only, in one field only, in the watch only
